@@ -2,7 +2,6 @@
 
 use crate::cases::{build_base, CaseCfg, GenStats};
 use crate::e2::{run_job_here, Job, Outcome, QuerySrc};
-use crate::e3::run_cli;
 use crate::report::Report;
 use crate::tape::{fnv_str, sample_tapes, Tape};
 use crate::world::options::Opts;
@@ -216,6 +215,11 @@ fn expected_target(r: &Run) -> String {
 
 /// Execute one run in `dir`; Err((key, summary)) when the property is violated.
 fn execute(dir: &Path, r: &Run) -> Result<(), (Option<&'static str>, String)> {
+    execute_limit(dir, r, 30)
+}
+
+/// `limit`: watchdog for the command in seconds (a normal run takes well under a second)
+fn execute_limit(dir: &Path, r: &Run, limit: u64) -> Result<(), (Option<&'static str>, String)> {
     let _ = std::fs::remove_dir_all(dir);
     std::fs::create_dir_all(dir).map_err(|e| (None, e.to_string()))?;
     let qpath = dir.join(&r.query_rel);
@@ -240,7 +244,7 @@ fn execute(dir: &Path, r: &Run) -> Result<(), (Option<&'static str>, String)> {
         std::fs::write(dir.join(&target), old).unwrap();
     }
     let before = listing(dir);
-    let run = run_cli(dir, &r.args).map_err(|e| (None, format!("infrastructure: {}", e)))?;
+    let run = crate::e3::run_cli_limit(dir, &r.args, limit).map_err(|e| (None, format!("infrastructure: {}", e)))?;
     let after = listing(dir);
     if r.invalid_rule.is_some() {
         if run.status.success() {
@@ -369,6 +373,7 @@ pub fn run(report: &mut Report, replay: Option<&Value>) {
         });
         out.into_inner().unwrap().into_iter().map(|x| x.unwrap()).collect()
     };
+    let mut confirmed_hangs = 0usize;
     for (i, (r, res)) in runs.iter().zip(results).enumerate() {
         report.evaluations += 1;
         report.programs += 1;
@@ -403,9 +408,15 @@ pub fn run(report: &mut Report, replay: Option<&Value>) {
         if let Err((key, what)) = res {
             if what.starts_with("infrastructure: timeout:") {
                 // confirm alone (nothing else running): a command that again does not finish has not written its file
+                if confirmed_hangs >= 2 {
+                    // two confirmed already: further time-outs are counted, not re-run (bounded work on a hanging tree)
+                    report.count_extra("cli_timeouts_after_two_confirmed_hangs", 1);
+                    continue;
+                }
                 report.count_extra("cli_timeouts_rechecked_alone", 1);
-                match execute(&root.join(format!("again{}", i)), r) {
+                match execute_limit(&root.join(format!("again{}", i)), r, 90) {
                     Err((_, w2)) if w2.starts_with("infrastructure: timeout:") => {
+                        confirmed_hangs += 1;
                         let replay = replay_value(r, &w2);
                         report.failure(None, "c19:command-does-not-finish", &format!("graphql-client {}: valid inputs, but the command does not finish (twice, the second time alone) and writes no file: {}", r.args.join(" "), w2), || replay);
                     }
